@@ -213,6 +213,20 @@ CLAIMED = {
             'Leaves evaluated with mpmath (t quantile by bisection on the incomplete beta). W patterns are only formed when '
             'distinct differences are separated by > 1e-9 relative. Trusted: vh/xr.py.',
             '5/C08'),
+    'C14': ('TLA+ state machine of the persistence stores and operations (Persist.tla) model-checked by TLC; every history it '
+            'emits executed on real catalogs with typed field values; after each operation the projected object plus a '
+            'bit-exactness flag is replayed by TLC (TracePersist)',
+            'TLC checks EventsFromSource, RoundTripIdentity, AppendConcatenates and IdSurvives over every history of <=3 (quick) '
+            '/ <=4 (thorough) operations {write with/without header, append, load ASCII, to/from dict, write/load JSON, to/from '
+            'DataFrame} from 7 source catalogs (empty / non-empty, integer id or none, name, region). Each of the 1 595 (quick) '
+            'histories is executed with events whose ids contain commas, quotes, semicolons, surrounding spaces or 255 characters, '
+            'times in 1900..2200 at millisecond phases incl. pre-1970, shortest-repr / 17-digit / extreme doubles and negative '
+            'zero; after every operation the real object is projected to event identities, catalog id (must be an integer type), '
+            'name and region (dictionary and lookups equal) with a flag that every field is bit-identical, and TLC accepts the '
+            'history only if it is the behaviour of the machine. Random catalogs of up to 2000 events follow the same path.',
+            'TLC supplies the operation / state matrix and the identity oracle; text formatting fidelity is decided by the '
+            'conformance runs. Trusted: typed value generation and projection in vh/drivers/c14.py.',
+            '5/C14'),
 }
 
 NOT_YET = 'check not built yet in this round (specification planned in DESIGN.md section 5); not claimed until it exists'
